@@ -937,7 +937,16 @@ def from_config_setup(variant):
     def setup(b):
         mk = b.st.new_py
         b.adapter = Obj('<adapter type sha2>')
-        b.bind('_adapters_mapping', mk('dict', {'sha2': b.adapter, 'scrypt': Obj('<adapter type scrypt>')}))
+        # the registry is whatever module-level table from_config looks the name up in (found by that use, not by its spelling)
+        import ast as _ast
+        table = '_adapters_mapping'
+        for n in _ast.walk(b.node):
+            if isinstance(n, _ast.Subscript) and isinstance(n.value, _ast.Name) and isinstance(n.slice, _ast.Name) and n.slice.id == 'name':
+                table = n.value.id
+            if isinstance(n, _ast.Call) and isinstance(n.func, _ast.Attribute) and n.func.attr == 'get' and isinstance(n.func.value, _ast.Name) \
+                    and n.args and isinstance(n.args[0], _ast.Name) and n.args[0].id == 'name':
+                table = n.func.value.id
+        b.bind(table, mk('dict', {'sha2': b.adapter, 'scrypt': Obj('<adapter type scrypt>')}))
         b.bind('name', 'sha2' if variant != 'unknown_name' else 'sha4')
         b.user = {'bits': Obj('<user bits>')}
         b.bind('kwargs', mk('dict', dict(b.user)))
